@@ -17,7 +17,7 @@ use verif_harness::*;
 type Map = BTreeMap<Vec<u8>, Vec<u8>>;
 struct Failure { kind: &'static str, detail: String }
 
-struct ChildRun { ids: Vec<u64>, results: Vec<(String, u64)>, dropped: bool, log: Vec<(String, u64, i64)>, files: Vec<String>, status: Option<i32> }
+struct ChildRun { second: Option<(String, String)>, ids: Vec<u64>, results: Vec<(String, u64)>, dropped: bool, log: Vec<(String, u64, i64)>, files: Vec<String>, status: Option<i32> }
 
 fn run_child(dir: &Path, seed: u64, rot: bool, env: &[(&str, String)]) -> ChildRun {
     let _ = std::fs::remove_dir_all(dir);
@@ -37,11 +37,13 @@ fn run_child(dir: &Path, seed: u64, rot: bool, env: &[(&str, String)]) -> ChildR
     let mut ids = vec![];
     let mut results = vec![];
     let mut dropped = false;
+    let mut second = None;
     for l in text.lines() {
         let p: Vec<&str> = l.split(' ').collect();
         match p[0] {
             "IDS" => ids = p[1].split(',').filter_map(|x| x.parse().ok()).collect(),
             "R" if p[1] == "drop" => dropped = true,
+            "B" => second = Some((p[1].to_string(), p[2].to_string())),
             "R" => results.push((p[2].to_string(), p[3].parse().unwrap_or(0))),
             _ => {}
         }
@@ -62,7 +64,7 @@ fn run_child(dir: &Path, seed: u64, rot: bool, env: &[(&str, String)]) -> ChildR
     }
     let _ = std::fs::remove_file(&arm);
     let _ = std::fs::remove_file(&log);
-    ChildRun { ids, results, dropped, log: lg, files, status: out.status.code() }
+    ChildRun { second, ids, results, dropped, log: lg, files, status: out.status.code() }
 }
 
 fn dump(dir: &Path, nks: usize) -> Result<Vec<Map>, String> {
@@ -176,6 +178,18 @@ fn run_case(seed: u64, mode: &str, thorough: bool, lean: &mut Lean, hist: &mut B
     let mut nontrivial = false;
 
     if mode == "c13" {
+        // multi-thread clause: a second writer held right before the journal lock while the first one fails
+        {
+            let n = 1 + r.below(nsys as u64) as usize;
+            let run = run_child(&dir, seed, rot, &[("VERIF_SHIM_FAIL", format!("{n}:5")), ("VERIF_TWO_WRITERS", "1".into()), ("RUST_BACKTRACE", "0".into())]);
+            *hist.entry("two-writer-runs".into()).or_insert(0) += 1;
+            if let Some((at, res)) = &run.second {
+                if at != "end" && res == "ok" {
+                    fail!("impl-vs-oracle", "syscall {n} failing: operation #{at} of the first writer reported an error, yet a second writer that was waiting to enter the journal critical section was acknowledged afterwards (results of the first writer: {:?})", run.results.iter().map(|x| x.0.as_str()).collect::<Vec<_>>());
+                }
+                if at != "end" { *hist.entry("two-writer-runs-with-failure".into()).or_insert(0) += 1; }
+            }
+        }
         let tries = if thorough { nsys } else { nsys.min(6) };
         let mut ns: Vec<usize> = (1..=nsys).collect();
         while ns.len() > tries { let i = r.below(ns.len() as u64) as usize; ns.remove(i); }
